@@ -8,7 +8,12 @@ SymConsts : * spsdk/image/keystore.py — the constant AES-ECB inputs of `KeySto
               `sm4_cbc_encrypt/decrypt` substitute for a missing `iv_data`, and the IV bit-length they then require
               (evaluated with `algorithms.AES.block_size = algorithms.SM4.block_size = 128`, the value of the
               `cryptography` class attribute, which the harness re-checks against the live module);
-            * spsdk/crypto/hkdf.py — the hash the HKDF wrapper fixes.
+            * spsdk/crypto/hkdf.py — the hash the HKDF wrapper fixes;
+            * spsdk/crypto/hash.py — the members (name, tag, label) of `EnumHashAlgorithm`.
+Sb31Kdf   : spsdk/sbfile/sb31/functions.py — `_get_key_derivation_data` EXECUTED by a tiny AST interpreter (ints, bytes,
+            `int.to_bytes`, `bytes(n)`, `+`, `<<`, `if`/`raise`, conditional expressions, enum members) on the whole finite
+            parameter domain (key_length 128/256/192, rights 0..4, both modes, iteration 1/2) x two derivation constants
+            that expose every label byte position: a table of (arguments, 32 result bytes | refused).
 A constant whose defining expression has a shape the small evaluator does not understand is emitted with the value
 the hand model assumes and flagged `"fallback": true` in the meta file: then only the correspondence sweep and the
 oracle watch it (never a false alarm for a harmless refactor).  Properties/C09.lean proves the emitted values equal
@@ -24,6 +29,7 @@ CRC = "spsdk/crypto/crc.py"
 KS = "spsdk/image/keystore.py"
 SYM = "spsdk/crypto/symmetric.py"
 HKDF = "spsdk/crypto/hkdf.py"
+HASH = "spsdk/crypto/hash.py"
 
 
 class Unknown(Exception):
@@ -300,8 +306,190 @@ def gen_sym_consts() -> None:
     else:
         put("hkdfHashName", "String", '"sha256"', "sha256", f"algorithm keyword not recognised: {alg}")
 
+    # --- hash.py: EnumHashAlgorithm members
+    members = []
+    try:
+        enum = find_class(parse(HASH), "EnumHashAlgorithm")
+        for st in (enum.body if enum is not None else []):
+            if isinstance(st, ast.Assign) and isinstance(st.targets[0], ast.Name) and isinstance(st.value, ast.Tuple) and len(st.value.elts) >= 2:
+                tag, label = ast.literal_eval(st.value.elts[0]), ast.literal_eval(st.value.elts[1])
+                if isinstance(tag, int) and isinstance(label, str):
+                    members.append((st.targets[0].id, tag, label))
+    except (OSError, SyntaxError, ValueError):
+        members = []
+    put("hashEnum", "List (String × Nat × String)", "[" + ", ".join(f'("{n}", {t}, "{lab}")' for n, t, lab in members) + "]",
+        [list(m) for m in members], None if members else "EnumHashAlgorithm not found")
+
     out = ["namespace SpsdkVerif.Generated.SymConsts", ""] + defs + ["", "end SpsdkVerif.Generated.SymConsts"]
     emit("SymConsts", "\n".join(out) + "\n", meta)
 
 
-GENERATORS = {"CrcTable": gen_crc_table, "SymConsts": gen_sym_consts}
+# ---------------------------------------------------------------------------------------------- tiny interpreter
+class PyRaise(Exception):
+    def __init__(self, cls):
+        super().__init__(cls)
+        self.cls = cls
+
+
+class _Return(Exception):
+    def __init__(self, v):
+        self.v = v
+
+
+def _to_bytes(v, length, byteorder):
+    if not isinstance(v, int) or isinstance(v, bool) or not isinstance(length, int) or byteorder not in ("little", "big"):
+        raise Unknown("to_bytes arguments")
+    try:
+        return v.to_bytes(length, byteorder)
+    except OverflowError:
+        raise PyRaise("OverflowError")
+
+
+def iexpr(node, env):
+    if isinstance(node, ast.Constant) and isinstance(node.value, (int, bytes, str, bool)):
+        return node.value
+    if isinstance(node, (ast.Name, ast.Attribute)):
+        d = dotted(node)
+        if d is not None and d in env:
+            return env[d]
+        raise Unknown("name " + str(d))
+    if isinstance(node, ast.List) or isinstance(node, ast.Tuple):
+        return [iexpr(e, env) for e in node.elts]
+    if isinstance(node, ast.BinOp):
+        a, b = iexpr(node.left, env), iexpr(node.right, env)
+        for k, f in ((ast.Add, lambda: a + b), (ast.Sub, lambda: a - b), (ast.Mult, lambda: a * b), (ast.FloorDiv, lambda: a // b),
+                     (ast.LShift, lambda: a << b), (ast.RShift, lambda: a >> b), (ast.BitOr, lambda: a | b), (ast.BitAnd, lambda: a & b)):
+            if isinstance(node.op, k):
+                if isinstance(a, bool) or isinstance(b, bool) or type(a) is not type(b) and not (isinstance(a, int) and isinstance(b, int)):
+                    raise Unknown("operand types")
+                return f()
+        raise Unknown("operator")
+    if isinstance(node, ast.Compare) and len(node.ops) == 1:
+        a, b = iexpr(node.left, env), iexpr(node.comparators[0], env)
+        op = node.ops[0]
+        table = {ast.Eq: lambda: a == b, ast.NotEq: lambda: a != b, ast.Lt: lambda: a < b, ast.LtE: lambda: a <= b, ast.Gt: lambda: a > b,
+                 ast.GtE: lambda: a >= b, ast.In: lambda: a in b, ast.NotIn: lambda: a not in b}
+        for k, f in table.items():
+            if isinstance(op, k):
+                return f()
+        raise Unknown("comparison")
+    if isinstance(node, ast.BoolOp):
+        vals = [iexpr(v, env) for v in node.values]
+        return all(vals) if isinstance(node.op, ast.And) else any(vals)
+    if isinstance(node, ast.UnaryOp) and isinstance(node.op, ast.Not):
+        return not iexpr(node.operand, env)
+    if isinstance(node, ast.IfExp):
+        return iexpr(node.body, env) if iexpr(node.test, env) else iexpr(node.orelse, env)
+    if isinstance(node, ast.Call):
+        d = dotted(node.func)
+        args = [iexpr(a, env) for a in node.args]
+        kw = {k.arg: iexpr(k.value, env) for k in node.keywords}
+        if d == "int.to_bytes":
+            names = ["value", "length", "byteorder"]
+            full = dict(zip(names, args))
+            full.update(kw)
+            return _to_bytes(full.get("value"), full.get("length"), full.get("byteorder"))
+        if isinstance(node.func, ast.Attribute) and node.func.attr == "to_bytes":
+            v = iexpr(node.func.value, env)
+            full = dict(zip(["length", "byteorder"], args))
+            full.update(kw)
+            return _to_bytes(v, full.get("length"), full.get("byteorder"))
+        if d == "bytes" and len(args) <= 1 and not kw:
+            if not args:
+                return b""
+            if isinstance(args[0], int) and not isinstance(args[0], bool) and 0 <= args[0] <= 4096:
+                return bytes(args[0])
+            if isinstance(args[0], list):
+                return bytes(args[0])
+            raise Unknown("bytes(...)")
+        if d == "len" and len(args) == 1:
+            return len(args[0])
+        raise Unknown("call " + str(d))
+    raise Unknown(type(node).__name__)
+
+
+def iblock(stmts, env):
+    for st in stmts:
+        if isinstance(st, ast.Expr) and isinstance(st.value, ast.Constant):
+            continue
+        if isinstance(st, ast.If):
+            iblock(st.body if iexpr(st.test, env) else st.orelse, env)
+        elif isinstance(st, ast.Raise):
+            exc = st.exc.func if isinstance(st.exc, ast.Call) else st.exc
+            raise PyRaise((dotted(exc) or "?").split(".")[-1])
+        elif isinstance(st, ast.Assign) and len(st.targets) == 1 and isinstance(st.targets[0], ast.Name):
+            env[st.targets[0].id] = iexpr(st.value, env)
+        elif isinstance(st, ast.AnnAssign) and isinstance(st.target, ast.Name) and st.value is not None:
+            env[st.target.id] = iexpr(st.value, env)
+        elif isinstance(st, ast.AugAssign) and isinstance(st.target, ast.Name) and isinstance(st.op, ast.Add):
+            env[st.target.id] = env[st.target.id] + iexpr(st.value, env)
+        elif isinstance(st, ast.Return):
+            raise _Return(iexpr(st.value, env))
+        else:
+            raise Unknown("statement " + type(st).__name__)
+
+
+def icall(fn, kwargs, genv):
+    env = dict(genv)
+    env.update(kwargs)
+    try:
+        iblock(fn.body, env)
+    except _Return as r:
+        return ("ok", r.v)
+    except PyRaise as r:
+        return ("E:spsdk",) if r.cls.startswith("SPSDK") else ("E:other",)
+    raise Unknown("no return")
+
+
+SB31 = "spsdk/sbfile/sb31/functions.py"
+KDF_CONSTS = (0, 0x0C0B0A090807060504030201)
+
+
+def gen_sb31_kdf() -> None:
+    meta = {"source": SB31 + "::_get_key_derivation_data", "rows": 0}
+    rows = []
+    try:
+        tree = parse(SB31)
+        fn = find_fun(tree, "_get_key_derivation_data")
+        if fn is None:
+            raise Unknown("function not found")
+        params = [a.arg for a in fn.args.args]
+        if sorted(params) != sorted(["derivation_constant", "kdk_access_rights", "mode", "key_length", "iteration"]):
+            raise Unknown(f"parameters {params}")
+        enum = find_class(tree, "KeyDerivationMode")
+        members = [st.targets[0].id for st in (enum.body if enum else []) if isinstance(st, ast.Assign) and isinstance(st.targets[0], ast.Name)]
+        if sorted(members) != ["BLK", "KDK"]:
+            raise Unknown(f"KeyDerivationMode members {members}")
+        genv = {"Endianness.LITTLE.value": "little", "Endianness.BIG.value": "big", "KeyDerivationMode": frozenset(members)}
+        for m in members:
+            genv["KeyDerivationMode." + m] = m
+        for dc in KDF_CONSTS:
+            for kl in (128, 256, 192):
+                for rights in range(0, 5):
+                    for mode in ("KDK", "BLK"):
+                        for it in (1, 2):
+                            r = icall(fn, dict(derivation_constant=dc, kdk_access_rights=rights, mode=mode, key_length=kl, iteration=it), genv)
+                            if r[0] == "ok" and not isinstance(r[1], bytes):
+                                raise Unknown("result is not bytes")
+                            rows.append((dc, rights, mode == "KDK", kl, it, r))
+        meta["rows"] = len(rows)
+        meta["sample"] = {"args": "dc=0x0c0b0a090807060504030201 rights=3 BLK 256 it=2",
+                          "bytes": next(r[5][1].hex() for r in rows if r[:5] == (KDF_CONSTS[1], 3, False, 256, 2))}
+    except (Unknown, OSError, SyntaxError, KeyError, TypeError, StopIteration) as exc:
+        meta["fallback"] = f"not interpretable ({exc}); empty table - correspondence and oracle only"
+        rows = []
+    out = ["namespace SpsdkVerif.Generated.Sb31Kdf", "",
+           "/-- (derivation constant, access rights, mode is KDK, key length, iteration, result): `some bytes`, or `none` = SPSDKError -/",
+           "def table : List (Nat × Nat × Bool × Nat × Nat × Option (List UInt8)) := ["]
+    lines = []
+    for dc, rights, kdk, kl, it, r in rows:
+        if r[0] == "E:other":
+            continue  # not reachable on this domain; the model's `.other` cases are swept by the harness
+        val = "some " + lean_bytes(r[1]) if r[0] == "ok" else "none"
+        lines.append(f"  ({dc}, {rights}, {'true' if kdk else 'false'}, {kl}, {it}, {val})")
+    out.append(",\n".join(lines))
+    out += ["]", "", "end SpsdkVerif.Generated.Sb31Kdf"]
+    emit("Sb31Kdf", "\n".join(out) + "\n", meta)
+
+
+GENERATORS = {"CrcTable": gen_crc_table, "SymConsts": gen_sym_consts, "Sb31Kdf": gen_sb31_kdf}
